@@ -124,6 +124,11 @@ example : factorImpl toy 5 (211 * 211 * 223) .qs (initSt () []) =
 example : factor toy 5 (2 * 211 * 211 * 223) .qs () = .ok [2, 9928183] ∧
     factorGiveups toy 5 (2 * 211 * 211 * 223) .qs () = [9928183] := by decide +kernel
 
+/-- selector Rho with a failing `rho` (give-up site added by the `fix:` of the Rho arm): the
+composite 47053 is output and logged -/
+example : factor toyNoRho 18 188212 .rho () = .ok [2, 2, 47053] ∧
+    factorGiveups toyNoRho 18 188212 .rho () = [47053] := by decide +kernel
+
 example : ∃ new gnew, [9928183] = [] ++ new ∧ [9928183] = [] ++ gnew ∧
     ∀ x ∈ new, (∃ t, (toy.prime t x).1 = true) ∨ x ∈ gnew :=
   auto_composite_needs_giveup toy 5 (211 * 211 * 223) .qs (initSt () [])
